@@ -677,7 +677,8 @@ def observe(data, prog, gid_of, abs_of, universe, seqs, alts=(1,)):
         if s != "DFLT":
             pairs += [(s, l) for l in ll]
     if len(ss) > 1 or len(ll) > 1:
-        pairs += [([s for s in ss if s != "DFLT"] or ["DFLT"])[0:1][0:1] and (([s for s in ss if s != "DFLT"] or ["DFLT"])[0], "ZZZ "), ("cyrl", "dflt")]
+        first = ([s for s in ss if s != "DFLT"] or ["DFLT"])[0]
+        pairs += [(first, "ZZZ "), ("cyrl", "dflt")]
     configs = []
     singles = [[t] for t in tags] if len(tags) > 1 else []
     for i, (s, l) in enumerate(pairs):
@@ -990,8 +991,6 @@ def corpus_case(path):
         prog = AstProj(gid).program(ff)
         if not any(st["k"] == "feature" for st in prog):
             raise Unsupported("no feature block")
-        if has_kind(prog, {"csub", "cpos"}) and has_kind(prog, {"mkb", "mkm", "mkl", "curs"}) and has_kind(prog, {"sub"}):
-            pass
         if has_kind(prog, {"mkb", "mkm", "mkl"}) and has_kind(prog, {"sub", "csub"}):
             raise Unsupported("mark attachment together with substitutions (HarfBuzz ligature-component bookkeeping)")
     except Unsupported as e:
